@@ -19,6 +19,15 @@ import (
 func parseBlk(e sx.Sexp) (*blockSpec, bool) {
 	if e.IsList {
 		a := e.Args()
+		if e.Tag() == "bt" && len(a) == 3 {
+			// a lambda with one parameter per type: the first MIN required, the others optional; MAX = d: the last one repeated
+			blk := &blockSpec{types: bpList(a[0]), min: a[1].MustInt(), max: bound(a[2])}
+			n := int64(len(blk.types))
+			if n > 8 || blk.min < 0 || blk.min > n || (blk.max != nil && *blk.max != n) || (blk.max == nil && n == 0) {
+				return nil, false
+			}
+			return blk, true
+		}
 		if e.Tag() != "b" || len(a) != 2 {
 			return nil, false
 		}
